@@ -1,6 +1,9 @@
 package props
 
 import (
+	"bytes"
+	"encoding/hex"
+	"encoding/json"
 	"fmt"
 	"strings"
 	"testing"
@@ -290,6 +293,79 @@ func TestC04(t *testing.T) {
 		gen.Sample("abstraction", fmt.Sprintf("%+v", c))
 		runAbs(t, bases, c)
 	})
+	// (a') the SIGNED TCB Info lacks something the evaluation needs while an unsigned, differently spelled sibling member
+	// supplies a complete, favourable document: what the signed member does not say is not said
+	gen.Prop(t, "signed-tcb-info-omits-what-an-unsigned-twin-supplies", gen.N(500, 40000), func(t *rapid.T) {
+		drop := rapid.SampledFrom([]string{"tdxModuleIdentities", "tdxModuleIdentities", "tcbLevels", "fmspc", "pceId", "tdxModule", "level.tcbStatus", "module-level.tcbStatus", "identity.tcbLevels", "tdxModule.mrsigner", "tdxModule.attributesMask"}).Draw(t, "omitted")
+		module := drop == "tdxModuleIdentities" || drop == "module-level.tcbStatus" || drop == "identity.tcbLevels"
+		w, _ := gen.DrawWorld(t, gen.WorldCfg{MaxAuth: 16, Simple: true, ForceModule: module, NoModule: !module})
+		w.Build()
+		full := w.TcbInfo.Render()
+		var m map[string]any
+		dec := json.NewDecoder(bytes.NewReader(full))
+		dec.UseNumber()
+		if err := dec.Decode(&m); err != nil {
+			gen.HarnessError(t, "own TCB Info does not decode: %v", err)
+		}
+		each := func(list any, f func(map[string]any)) {
+			l, _ := list.([]any)
+			for _, e := range l {
+				if o, ok := e.(map[string]any); ok {
+					f(o)
+				}
+			}
+		}
+		switch drop {
+		case "level.tcbStatus":
+			each(m["tcbLevels"], func(o map[string]any) { delete(o, "tcbStatus") })
+		case "module-level.tcbStatus":
+			each(m["tdxModuleIdentities"], func(id map[string]any) { each(id["tcbLevels"], func(o map[string]any) { delete(o, "tcbStatus") }) })
+		case "identity.tcbLevels":
+			each(m["tdxModuleIdentities"], func(id map[string]any) { delete(id, "tcbLevels") })
+		case "tdxModule.mrsigner":
+			delete(m["tdxModule"].(map[string]any), "mrsigner")
+		case "tdxModule.attributesMask":
+			delete(m["tdxModule"].(map[string]any), "attributesMask")
+		default:
+			delete(m, drop)
+		}
+		partial, _ := json.Marshal(m)
+		sig := hex.EncodeToString(w.PKI.TcbSig.Key.SignRaw(partial))
+		twin := rapid.SampledFrom(gen.FoldVariants("tcbInfo")).Draw(t, "twinSpelling")
+		var body string
+		switch rapid.IntRange(0, 2).Draw(t, "order") {
+		case 0:
+			body = `{"` + twin + `":` + string(full) + `,"tcbInfo":` + string(partial) + `,"signature":"` + sig + `"}`
+		case 1:
+			body = `{"tcbInfo":` + string(partial) + `,"` + twin + `":` + string(full) + `,"signature":"` + sig + `"}`
+		default:
+			body = `{"tcbInfo":` + string(partial) + `,"signature":"` + sig + `","` + twin + `":` + string(full) + `}`
+		}
+		u := gen.TcbInfoURL(w.FmspcHex())
+		w.Resp[u] = gen.Response{Header: w.Resp[u].Header, Body: []byte(body)}
+		o := w.Options(gen.LvlColl, w.NewGetter(), nil)
+		gen.Eval()
+		v := gen.Call(func() error { return verify.RawTdxQuote(w.Raw, o) })
+		gen.Class("omitted:" + drop)
+		gen.NonTrivial("omitted", drop, twin, w.Raw[:64])
+		gen.Sample("omitted", map[string]any{"omitted": drop, "unsigned_twin": twin, "verdict": v.Short()})
+		if v.Accepted() {
+			gen.Fail(t, gen.Violation{Key: "accepts-bad-tcb:signed-tcb-info-lacks-" + drop, Oracle: "accepted only if identity fields match and the selected platform (and module) level is UpToDate — according to the SIGNED TCB Info", Detail: fmt.Sprintf("the signed TCB Info has no %s; an unsigned member %q supplies a complete document; the quote is accepted", drop, twin), Replay: w.CaseFile(gen.LvlColl, nil, nil, nil, "reject")})
+			return
+		}
+		// the level report on the same options must not come from the unsigned twin either
+		msg := w.Q.ToProto()
+		var tl pcs.TcbLevel
+		vs := gen.Call(func() error {
+			var err error
+			tl, _, err = verify.SupportedTcbLevelsFromCollateral(msg, o)
+			return err
+		})
+		if vs.Accepted() && (drop == "tcbLevels" || drop == "level.tcbStatus") && tl.TcbStatus == "UpToDate" {
+			gen.Fail(t, gen.Violation{Key: "supported-levels-from-unsigned-twin:" + drop, Oracle: "the reported TCB level is the level the selection algorithm picks from the SIGNED TCB Info", Detail: fmt.Sprintf("the signed TCB Info has no %s, the level report says UpToDate", drop), Replay: w.CaseFile(gen.LvlColl, nil, nil, nil, "reject")})
+		}
+	})
+
 	// (b) random beyond the abstraction: full-range SVNs, up to 4 levels, arbitrary masks, identity-field faults.
 	gen.Prop(t, "random", gen.N(3000, 250000), func(t *rapid.T) {
 		w, d := gen.DrawWorld(t, gen.WorldCfg{MaxAuth: 16, LowerHexIDs: false})
